@@ -956,6 +956,9 @@ package router
 //@   callsite mustHaveRespB?: [C13:over-limit-answer-is-refused] arg0 == gM && arg1 == nil && arg2 == dnsmsg.RCodeRefused && arg3 == true
 //@   callsite Write?: [C13,C15:over-limit-or-refused-answer-is-written] arg0 == c && arg1 == gB && (gCCR > e.maxConcurrent || (nAsk == 1 && gAdm != nil))
 //@   callsite go: [C13,C15:within-the-limits-handled] gCCR <= e.maxConcurrent && nAsk == 1 && gAdm == nil && captures(m)
+// (the event loop decodes the next frame into a NEW variable: a goroutine must not share its query variable with
+// the iterations that follow)
+//@   callsite go: [C03,C20:each-query-goroutine-has-its-own-variables] !capturesLoopVar(m) && !capturesLoopVar(err)
 //@   loop 1:
 //@     modifies cc.readN, cc.buffer, cc.readingHdr, cc.err, pkgheaps(dnsmsg), bytes()
 //@     invariant gcc == cc && cc != nil && cc.idleTimer != nil && ccInv(cc) && inb >= 0 && nAns == nQ
@@ -1208,7 +1211,7 @@ package router
 //@   ensures [C15,C18:stream-loop-ends-only-on-an-accept-error] err != nil
 //@   ensures [C15,C03:every-accepted-stream-is-handled-or-closed-once] nDisp == nAcc
 //@   callsite limiterAllowN: [C15:query-cost-charged-to-the-client] arg0 == s.r && nRemote >= 1 && arg1 == gAP.ip && arg2 == 2
-//@   callsite go: [C15:refused-query-not-handled] nAsk == 1 && gAdm == nil && capturesVar(stream)
+//@   callsite go: [C15:refused-query-not-handled] nAsk == 1 && gAdm == nil && capturesVar(stream) && !capturesLoopVar(stream)
 //@   callsite Stream.Close?: [C15:only-the-refused-stream-is-closed] arg0 == gStream && nAsk == 1 && gAdm != nil
 //@   loop 1:
 //@     modifies *
@@ -1346,6 +1349,7 @@ package router
 //@   callsite netAddr2NetipAddr: [C15:connection-cost-charged-to-the-client] arg0 == gRemote
 //@   callsite limiterAllowN: [C15:connection-cost-charged-to-the-client] arg0 == s.r && arg1 == gAP.ip && arg2 == (s.tlsConfig != nil ? 15 : 3)
 //@   callsite go: [C15:refused-connection-not-served] nAsk == 1 && gAdm == nil
+//@   callsite go: [C13,C20:each-connection-goroutine-has-its-own-connection-variable] capturesVar(c) && !capturesLoopVar(c)
 //@   callsite Close: [C15:only-refused-connections-are-closed] arg0 == gConn && nAsk == 1 && gAdm != nil
 //@   loop 1:
 //@     modifies *
@@ -1399,6 +1403,7 @@ package router
 //@   callsite mustHaveRespB: [C13,C15:refused-answer] arg0 == gM && arg1 == nil && arg2 == dnsmsg.RCodeRefused && arg3 == true
 //@   callsite Write: [C13:over-limit-or-refused-by-the-limiter] arg1 == gB && len(arg1) >= 14 && BE16(arg1, 0) == uint16(len(arg1) - 2)
 //@   callsite go: [C13,C15:refused-query-not-handled] gCC <= s.maxConcurrent && nAsk == 1 && gAdm == nil
+//@   callsite go: [C03,C20:each-query-goroutine-has-its-own-variables] capturesVar(m) && capturesVar(rc) && !capturesLoopVar(m) && !capturesLoopVar(rc)
 //@   loop 1:
 //@     modifies *
 //@     invariant s != nil && routerReady(s.r) && s.logger != nil && c != nil && br != nil && nAns == nQ && nQConv >= 0
@@ -1542,6 +1547,7 @@ package router
 //@   callsite netAddr2NetipAddr: [C15:connection-cost-charged-to-the-client] nRemote >= 1 && arg0 == gRemote
 //@   callsite limiterAllowN: [C15:connection-cost] arg0 == s.r && arg2 == 15
 //@   callsite go: [C15:refused-connection-not-served] nAsk == 1 && gAdm == nil
+//@   callsite go: [C03,C20:each-connection-goroutine-has-its-own-connection-variable] capturesVar(c) && !capturesLoopVar(c)
 //@   callsite CloseWithError: [C15:only-refused-connections-are-closed] nAsk == 1 && gAdm != nil
 //@   loop 1:
 //@     modifies *
